@@ -110,13 +110,14 @@ func (e *env) close() {
 }
 
 type runState struct {
-	hugeDir bool // class readdir: the big directory has more than 1000 entries
-	t      *tape.Tape
-	m      *model
-	e      *env
-	res    *sim.Result
-	wcount int
-	shape  []string
+	hugeDir   bool // class readdir: the big directory has more than 1000 entries
+	t         *tape.Tape
+	m         *model
+	e         *env
+	res       *sim.Result
+	wcount    int
+	lastErrno uint32
+	shape     []string
 	// non-triviality probes
 	effects, reuse, mixedIO, rdMulti, faultsFired int
 	lastFreed                                     map[int32]bool
@@ -618,10 +619,27 @@ func (s *runState) doPathOpen(dirfd int32, dirflags uint32, p string, oflags uin
 	}
 	po, pl := s.putPath(offPath1, p)
 	s.e.g.PutU32(offRes, 0xFFFFFFFF)
-	got, ok := s.call("path_open", uint64(uint32(dirfd)), uint64(dirflags), uint64(po), uint64(pl), uint64(oflags), rights, rights, uint64(fdflags), offRes)
+	resPtr := uint64(offRes)
+	if want == 0 && apply != nil && !s.faulty && s.t.Chance(1, 25) {
+		// the result pointer lies outside the guest's memory: the open happens (a file may be created or
+		// emptied), the descriptor cannot be reported, the call fails and leaves NO descriptor behind
+		resPtr = 0xFFFFFFF0
+		what += " [result pointer outside memory]"
+		s.res.Stat("fault.path_open_result_pointer_outside_memory", 1)
+		inner := apply
+		want, alts, apply = w.EFAULT, nil, nil
+		defer func() {
+			if s.res.Violation == nil && s.lastErrno == w.EFAULT {
+				inner(-7)
+				delete(m.fds, -7)
+			}
+		}()
+	}
+	got, ok := s.call("path_open", uint64(uint32(dirfd)), uint64(dirflags), uint64(po), uint64(pl), uint64(oflags), rights, rights, uint64(fdflags), resPtr)
 	if !ok {
 		return
 	}
+	s.lastErrno = got
 	if s.faultRelax(what, got, want) {
 		s.resyncAfterFault(r, got, apply)
 		return
